@@ -13,3 +13,5 @@ def run(ck):
     region.r5_5_copy_sets_count(ck, P)
     region.r5_6_subsumption_single_rect(ck, P)
     region.r5_7_sort_key_fields(ck, P)
+    region.r_instantiation_signedness(ck, P, 'C05-R9')
+    region.r5_8_cached_field_follows_cursor(ck, P)
